@@ -66,11 +66,13 @@ def _run(cmd, env=None, cwd=None, log=None):
 
 
 def _gc(keep):
-    """keep the disk footprint small: at most 2 build dirs per flavour"""
+    """keep the disk footprint small: at most 3 build dirs per flavour, older ones go once nobody has used them for
+    two hours (several checks may run at the same time on different trees; a directory in use is touched on every use)"""
+    now = time.time()
     for fl in FLAVOURS:
         ds = sorted(glob.glob(os.path.join(BUILD_ROOT, fl + "-*")), key=os.path.getmtime, reverse=True)
-        for d in ds[2:]:
-            if d != keep:
+        for d in ds[3:]:
+            if d != keep and now - os.path.getmtime(d) > 7200:
                 shutil.rmtree(d, ignore_errors=True)
 
 
